@@ -1786,7 +1786,50 @@ def w_terms_layout(failure, tier):
     return dict(found=False, note='terms limits and thresholds: %d (aggregation, layout) combinations give the single-segment answer%s' % (n, '' if not skip else ' (cases of open known findings skipped: %s)' % sorted(skip)))
 
 
+def w_nested_types(failure, tier):
+    """a value of the wrong type is refused when the document is queued, inside a nested object exactly as at the top level:
+    the same bad value is offered once in a top-level field and once in a nested property of the same kind"""
+    kw = lambda n: {"type": "keyword", "name": n, "stored": True, "indexed": True, "fast": True, "nullable": True}
+    tx = lambda n: {"type": "text", "name": n, "analyzer": "default", "stored": True, "indexed": True, "nullable": True}
+    nm = lambda n, i: {"type": "numeric", "name": n, "i64": i, "fast": True, "stored": True, "nullable": True}
+    add = {"numeric_fields": [{"name": "i", "i64": True, "fast": True, "stored": True, "nullable": True}, {"name": "f", "i64": False, "fast": True, "stored": True, "nullable": True}],
+           "keyword_fields": [{"name": "k", "stored": True, "indexed": True, "fast": True, "nullable": True}],
+           "nested_fields": [{"name": "c", "nullable": True, "fields": [kw("k"), tx("t"), nm("i", True), nm("f", False)]}]}
+    bads = [("k", ["p", 3]), ("k", 7), ("k", [["p"]]), ("i", 2.5), ("i", [1, 2.5]), ("i", "x"), ("i", [1, "x"]), ("f", "1.5"), ("f", [1.0, "x"]), ("t", ["a", 5]), ("t", {"o": 1})]
+    goods = [("k", ["p", "q"]), ("i", [1, 2]), ("f", [1, 2.5]), ("t", ["a", "b"]), ("k", None)]
+    cases, meta = [], []
+    for (prop, val) in bads + goods:
+        top = {"_id": "top", "body": "x"}
+        if prop == "t":
+            top["body"] = val
+        else:
+            top[prop] = val
+        cases.append({"schema_add": add, "ops": [["add", top], ["commit"]]})
+        meta.append((prop, val, 'top'))
+        cases.append({"schema_add": add, "ops": [["add", {"_id": "nst", "body": "x", "c": [{prop: val}]}], ["commit"]]})
+        meta.append((prop, val, 'nested'))
+    outs = drive('history', [_json.dumps(c).encode() for c in cases])
+    n = 0
+    for i in range(0, len(cases), 2):
+        (prop, val, _a) = meta[i]
+        res = []
+        for r in outs[i:i + 2]:
+            if not r.startswith('OK '):
+                return dict(found=False, note='history driver failed: %s' % r[:300])
+            log = _json.loads(r[3:]).get('log', [])
+            res.append('refused' if any(l.startswith('add failed') for l in log) else ('commit failed' if log else 'accepted'))
+        n += 1
+        if res[0] != res[1]:
+            return dict(found=True, cmd='%s history <<< hex(json)' % BIN,
+                        input='the value %s in the %s field at the top level, and in the nested property c.%s of the same kind' % (_json.dumps(val), {'k': 'keyword', 'i': 'i64', 'f': 'f64', 't': 'text'}[prop], prop),
+                        observed='top level: %s; nested: %s' % (res[0], res[1]), expected='the same answer from add_document')
+    return dict(found=False, note='nested value types: %d values get the same answer from add_document at the top level and inside a nested object' % n)
+
+
 GENERATORS = {
+    ('U40', 'nested_text_value'): w_nested_types,
+    ('U40', 'nested_keyword_value'): w_nested_types,
+    ('U40', 'nested_numeric_value'): w_nested_types,
     ('U49', 'terms_finish_cut'): w_terms_layout,
     ('U48', 'composite_source_values'): w_composite,
     ('U7', 'composite_keep_after'): w_composite,
